@@ -36,6 +36,9 @@ type Val struct {
 	Cl   *Closure
 	Fn   *ssa.Function
 	Typ  types.Type
+	// provenance of slice values (used for the automatic loop frame)
+	AppOf string // result of append(x, ...): the array reference of x
+	Fresh bool   // freshly allocated (make, conversion)
 }
 
 type PtrKind int
